@@ -6,6 +6,7 @@ import SJ.Proofs.WalkSafe
 import SJ.Proofs.MarshalExact
 import SJ.Proofs.GoEscape
 import SJ.Proofs.GoMarshal
+import SJ.Proofs.GoArrMarshal
 /-
 C10 — MarshalJSON emits valid JSON denoting the same document.
 -/
@@ -149,5 +150,26 @@ theorem C10_marshal_follows_source (pj : PJ) (hb : BufOK pj) (i : Iter) (hl : i.
       ∃ st v, runFun goFuns goIter_MarshalJSONBuffer F ⟨initEnv pj i dst, pj.tape⟩ = .ret st [v, .bool true]) ∧
     runFun goFuns goIter_MarshalJSONBuffer F ⟨initEnv pj i dst, pj.tape⟩ ≠ .panic :=
   go_marshal_source_tie_valid pj hb i hl ha hcur dst F hF
+
+open SJ.GoSem SJ.Generated SJ.GoIter SJ.GoObject SJ.GoArrMarshal in
+/-- **Source tie** (DESIGN §6.3). `Array.MarshalJSONBuffer` (`parsed_array.go`), printed from /repo on every run, means
+    under `GoSem.exec` the model's `View.arrMarshal` (the `amarshal` of the correspondence and of `C10_marshal_exact` for
+    arrays): the Go code returns `dst ++ out, nil` exactly when the model returns `out`, an error exactly when the model
+    errs; neither side panics or diverges on a view of the tape; never stuck. No hypothesis on `cur`: every element
+    `AdvanceIter` hands to `Iter.MarshalJSONBuffer` has a 56-bit `cur`. -/
+theorem C10_array_marshal_follows_source (pj : PJ) (hb : BufOK pj) (v : View) (hl : v.lim ≤ pj.tape.size) (dst : Bytes) (F : Nat)
+    (hF : 2 * fuelOf pj + v.lim + 10 ≤ F) :
+    (∀ out, View.arrMarshal pj v = .ok out ↔
+      ∃ st, runFun goFuns goArray_MarshalJSONBuffer F ⟨arrEnv pj v dst, pj.tape⟩ =
+          .ret st [.bytes (dst ++ out), .bool false] ∧ st.tape = pj.tape) ∧
+    ((∃ er, View.arrMarshal pj v = .error er) ↔
+      ∃ st x, runFun goFuns goArray_MarshalJSONBuffer F ⟨arrEnv pj v dst, pj.tape⟩ = .ret st [x, .bool true]) ∧
+    (View.arrMarshal pj v = .panic ↔
+      runFun goFuns goArray_MarshalJSONBuffer F ⟨arrEnv pj v dst, pj.tape⟩ = .panic) ∧
+    View.arrMarshal pj v ≠ .panic ∧ View.arrMarshal pj v ≠ .diverge ∧
+    runFun goFuns goArray_MarshalJSONBuffer F ⟨arrEnv pj v dst, pj.tape⟩ ≠ .panic ∧
+    runFun goFuns goArray_MarshalJSONBuffer F ⟨arrEnv pj v dst, pj.tape⟩ ≠ .diverge ∧
+    (∀ w, runFun goFuns goArray_MarshalJSONBuffer F ⟨arrEnv pj v dst, pj.tape⟩ ≠ .stuck w) :=
+  go_arrmarshal_source_tie pj hb v hl dst F hF
 
 end SJ.Properties.C10
